@@ -32,6 +32,28 @@ def check(ctx, pid):
         if gj["frames_with_offsets_above_7_8_of_the_window"] < gj["frames"] // 3:
             ctx.notes.append("few matches near the window in the geometry runs (%d of %d frames): the offset-vs-window check had little to look at"
                              % (gj["frames_with_offsets_above_7_8_of_the_window"], gj["frames"]))
+    if pid in ("C15", "C02"):
+        # the code-histogram classes of ParseClasses.tla, planted in the data and found by the BUILT-IN match finder: the
+        # table builder reaches its accuracy-log clamps (per field) from compress_to_vec as well
+        from .c12 import hist_classes_file
+        hc, res = hist_classes_file(ctx)
+        rep = ctx.path("seqhist_builtin.json")
+        vh(ctx, ["seqhist", ctx.seed, hc, ctx.path("unused_rows.ndjson"), rep, ctx.tier, "builtin"], timeout=7200)
+        hj = json.load(open(rep))
+        ctx.states += hj["classes_run"]
+        ctx.evaluations += hj["classes_run"]
+        ctx.cov["code_histogram_classes_builtin_matcher"] = {k: hj[k] for k in ("classes_run", "skipped_infeasible", "mismatches", "fse_tables_written", "block_not_compressed")}
+        if pid == "C02":
+            for m in hj["first"]:
+                ctx.violation("data with planted matches of code histogram %s (block of %d bytes): %s" % (json.dumps(m["class"]), m["block_len"], m["error"]), m, tag="histb")
+        else:
+            for m in hj["first"]:
+                lz = m["error"].split("libzstd ", 1)[-1]
+                if "libzstd " in m["error"] and not lz.startswith(("ok", "wrong bytes")):
+                    ctx.violation("data with planted matches of code histogram %s (block of %d bytes): the reference decoder rejects the frame: %s"
+                                  % (json.dumps(m["class"]), m["block_len"], m["error"]), m, tag="histb")
+        if hj["classes_run"] < 300 or hj["fse_tables_written"] < 300:
+            raise ToolError("vacuous built-in histogram classes %s" % ctx.cov["code_histogram_classes_builtin_matcher"])
     if pid == "C08":
         # decoder side: drains through every path in wrapped and unwrapped ring states, checksums compared with an independent XXH64
         params = dict(ReadSizes=[1, 1023, 5000], ByteBudgets=[1025], BlockBudgets=[1], Offers=[4000], Targets=[1, 5000],
